@@ -219,6 +219,9 @@ class Poly:
     def maxabs(s):
         return max((max(abs(c[0]), abs(c[1])) for c in s.t.values()), default=F0)
 
+    def key(s):
+        return tuple(sorted(s.t.items()))
+
 
 def _reduce(p):
     changed = True
@@ -267,6 +270,139 @@ def _reduce(p):
 ONE = Poly.const(CONE)
 
 
+class Den:
+    """factored real denominator: product of normalised polynomial factors f_i^k_i (constants never stored).
+    Keeps sums of fractions with different denominators small (lcm by factor matching) without a polynomial gcd."""
+    __slots__ = ("f", "_x")
+
+    def __init__(s, f=None):
+        s.f = f or {}
+        s._x = None
+
+    @staticmethod
+    def from_poly(p):
+        """-> (Den, c) with p == c * Den (c real Fraction); p must be a real non-zero polynomial"""
+        if isinstance(p, Den):
+            return p, F1
+        if p.isconst():
+            c = p.t.get(())
+            if c is None:
+                raise ZeroDivisionError("symbolic division by exact zero")
+            if c[1] != 0:
+                raise Inconclusive("complex denominator")
+            return DEN1, c[0]
+        if not p.isreal():
+            raise Inconclusive("complex denominator")
+        lead = p.t[min(p.t)][0]
+        q = p if lead == 1 else p.scale((1 / lead, F0))
+        return Den({q.key(): (q, 1)}), lead
+
+    def is_one(s):
+        return not s.f
+
+    def isconst(s):
+        return not s.f
+
+    def expand(s):
+        if s._x is None:
+            r = ONE
+            for q, k in s.f.values():
+                for _ in range(k):
+                    r = r * q
+            s._x = r
+        return s._x
+
+    @property
+    def t(s):
+        return s.expand().t
+
+    def eq(s, o):
+        if s is o:
+            return True
+        if len(s.f) != len(o.f):
+            return False
+        for k, (q, e) in s.f.items():
+            w = o.f.get(k)
+            if w is None or w[1] != e:
+                return False
+        return True
+
+    def mul(s, o):
+        if not s.f:
+            return o
+        if not o.f:
+            return s
+        f = dict(s.f)
+        for k, (q, e) in o.f.items():
+            w = f.get(k)
+            f[k] = (q, e + (w[1] if w else 0))
+        return Den(f)
+
+    def lcm(s, o):
+        """-> (L, cs, co) with L = lcm, cs = L/s, co = L/o (Polys)"""
+        f = dict(s.f)
+        cs = ONE
+        co = ONE
+        for k, (q, e) in o.f.items():
+            w = f.get(k)
+            have = w[1] if w else 0
+            if e > have:
+                f[k] = (q, e)
+                for _ in range(e - have):
+                    cs = cs * q
+        for k, (q, e) in f.items():
+            w = o.f.get(k)
+            have = w[1] if w else 0
+            for _ in range(e - have):
+                co = co * q
+        return Den(f), cs, co
+
+    def z3part(s, part):
+        if part == 1 or not s.f:
+            return z3.RealVal(0 if part == 1 else 1)
+        terms = []
+        for q, e in s.f.values():
+            t = q.z3part(0)
+            for _ in range(e):
+                terms.append(t)
+        r = terms[0]
+        for t in terms[1:]:
+            r = r * t
+        return r
+
+    def evalf(s, env):
+        r = F1
+        for q, e in s.f.values():
+            r *= q.evalf(env)[0] ** e
+        return r, F0
+
+    def atoms(s):
+        out = set()
+        for q, e in s.f.values():
+            out |= q.atoms()
+        return out
+
+    def nterms(s):
+        return sum(q.nterms() for q, e in s.f.values()) if s.f else 1
+
+    def sign(s):
+        sg = 1
+        for q, e in s.f.values():
+            if e % 2 == 0:
+                continue
+            x = _known_sign(q)
+            if not x:
+                return 0
+            sg *= x
+        return sg
+
+    def key(s):
+        return repr(sorted((repr(k), e) for k, (q, e) in s.f.items()))
+
+
+DEN1 = Den()
+
+
 def tofr(x):
     if isinstance(x, Fr):
         return x
@@ -296,13 +432,11 @@ class SymC:
 
     def __init__(s, n, d=None):
         if d is None:
-            d = ONE
-        elif d.isconst() and not d.is_one():
-            c = d.t.get(())
-            if c is None:
-                raise ZeroDivisionError("symbolic division by exact zero")
-            n = n.scale((1 / c[0], F0))
-            d = ONE
+            d = DEN1
+        elif not isinstance(d, Den):
+            d, c = Den.from_poly(d)
+            if c != 1:
+                n = n.scale((1 / c, F0))
         s.n = n
         s.d = d
 
@@ -344,10 +478,11 @@ class SymC:
         if s.d is o.d or s.d.eq(o.d):
             return SymC(s.n + o.n, s.d)
         if s.d.is_one():
-            return SymC(s.n * o.d + o.n, o.d)
+            return SymC(s.n * o.d.expand() + o.n, o.d)
         if o.d.is_one():
-            return SymC(s.n + o.n * s.d, s.d)
-        return SymC(s.n * o.d + o.n * s.d, s.d * o.d)
+            return SymC(s.n + o.n * s.d.expand(), s.d)
+        L, cs, co = s.d.lcm(o.d)
+        return SymC(s.n * cs + o.n * co, L)
     __radd__ = __add__
 
     def __neg__(s):
@@ -375,8 +510,8 @@ class SymC:
         if o is None:
             return NotImplemented
         if s.d.is_one() and o.d.is_one():
-            return SymC(s.n * o.n, ONE)
-        return SymC(s.n * o.n, s.d * o.d)
+            return SymC(s.n * o.n, DEN1)
+        return SymC(s.n * o.n, s.d.mul(o.d))
     __rmul__ = __mul__
 
     def inv(s):
@@ -384,11 +519,11 @@ class SymC:
             raise ZeroDivisionError("symbolic division by exact zero")
         a, b = s.n.re(), s.n.im()
         if b.iszero():
-            Ctx.note_div(SymC(a, ONE))
-            return SymC(s.d, a)
+            Ctx.note_div(a)
+            return SymC(s.d.expand(), a)
         den = a * a + b * b
-        Ctx.note_div(SymC(den, ONE))
-        return SymC(s.d * s.n.conj(), den)
+        Ctx.note_div(den)
+        return SymC(s.d.expand() * s.n.conj(), den)
 
     def __truediv__(s, o):
         o = s._bin(o)
@@ -400,7 +535,7 @@ class SymC:
                 co = o.n.t.get(())
                 if co is None:
                     raise ZeroDivisionError("symbolic division by exact zero")
-                return SymC(s.n.scale((o.d.t[()][0] / co[0], F0)), s.d)
+                return SymC(s.n.scale((1 / co[0], F0)), s.d)
         return s * o.inv()
 
     def __rtruediv__(s, o):
@@ -458,7 +593,7 @@ class SymC:
         return SymC.var(nm)
 
     def key(s):
-        return repr(sorted(s.n.t.items())) + "/" + repr(sorted(s.d.t.items()))
+        return repr(sorted(s.n.t.items())) + "/" + s.d.key()
 
     def _as_sqrt_atom(s):
         if s.d.is_one() and len(s.n.t) == 1:
@@ -471,8 +606,7 @@ class SymC:
         """s real non-constant: returns (cos, sin) atoms keyed by the sign-normalised form of s"""
         items = sorted(s.n.t.items())
         sign = 1
-        dl = s.d.t[sorted(s.d.t)[0]][0] if s.d.t else F1
-        lead = items[0][1][0] * (1 if dl > 0 else -1)
+        lead = items[0][1][0]
         if lead < 0:
             s = -s
             sign = -1
@@ -534,7 +668,53 @@ class SymC:
     def rint(s):
         if s.isconst():
             return SymC.of(round(complex(s).real))
-        raise Inconclusive("rint of symbolic value")
+        rng = s.interval()
+        if rng is None or rng[1] - rng[0] > 64:
+            raise Inconclusive("rint of symbolic value without (narrow) atom bounds")
+        # fork over the integer candidates n (round half to even, like numpy): n-1/2 < x < n+1/2, closed ends for even n
+        cands = list(range(math.ceil(rng[0] - Fr(1, 2)), math.floor(rng[1] + Fr(1, 2)) + 1))
+        for n in cands[:-1]:
+            h = (s >= n - Fr(1, 2)) & (s <= n + Fr(1, 2)) if n % 2 == 0 else (s > n - Fr(1, 2)) & (s < n + Fr(1, 2))
+            if bool(h):
+                return SymC.of(n)
+        return SymC.of(cands[-1])
+
+    def __mod__(s, m):
+        """x % m for a constant modulus m > 0 (python/numpy sign convention): forks over the integer quotient floor(x/m), candidates from the atom bounds"""
+        m = SymC.of(m)
+        if not m.isconst() or m.fraction()[1] != 0 or m.fraction()[0] <= 0:
+            raise Inconclusive("mod with a symbolic or non-positive modulus")
+        mf = m.fraction()[0]
+        if s.isconst():
+            if s.fraction()[1] != 0:
+                raise TypeError("mod of a complex value")
+            return SymC.of(s.fraction()[0] % mf)
+        rng = s.interval()
+        if rng is None or rng[1] - rng[0] > 64 * mf:
+            raise Inconclusive("mod of symbolic value without (narrow) atom bounds")
+        qs = list(range(math.floor(rng[0] / mf), math.floor(rng[1] / mf) + 1))
+        for q in qs[:-1]:
+            if bool((s >= q * mf) & (s < (q + 1) * mf)):
+                return s - q * mf
+        return s - qs[-1] * mf
+
+    def interval(s):
+        """exact interval enclosure (lo, hi) of a real polynomial value from the BOUNDS of its atoms; None if unavailable"""
+        if not s.d.is_one() or not s.n.im().iszero():
+            return None
+        lo = hi = F0
+        for m, c in s.n.t.items():
+            a = b = c[0]
+            for v, e in m:
+                bd = BOUNDS.get(v)
+                if bd is None or bd[0] is None or bd[1] is None:
+                    return None
+                for _ in range(e):
+                    ps = [a * Fr(bd[0]), a * Fr(bd[1]), b * Fr(bd[0]), b * Fr(bd[1])]
+                    a, b = min(ps), max(ps)
+            lo += a
+            hi += b
+        return lo, hi
 
     def atoms(s):
         return s.n.atoms() | s.d.atoms()
@@ -546,8 +726,7 @@ class SymC:
         if not s.isconst():
             raise Inconclusive("concretisation of a symbolic value (complex())")
         c = s.n.t.get((), ZERO)
-        d = s.d.t.get(())[0]
-        return complex(float(c[0] / d), float(c[1] / d))
+        return complex(float(c[0]), float(c[1]))
 
     def __float__(s):
         c = complex(s)
@@ -568,8 +747,7 @@ class SymC:
     def fraction(s):
         assert s.isconst()
         c = s.n.t.get((), ZERO)
-        d = s.d.t.get(())[0]
-        return c[0] / d, c[1] / d
+        return c[0], c[1]
 
     # comparisons (real parts only, like numpy would warn about): sign(n/d)
     def zreal(s):
@@ -592,6 +770,12 @@ class SymC:
         diff = s - o
         if diff.isconst():
             return bool(op(diff.fraction()[0], 0))
+        if not diff.d.is_one():
+            sg = diff.d.sign()
+            if sg:
+                # denominator of known sign (declared atom bounds): compare the numerator only (keeps the query linear)
+                num = diff.n.z3part(0)
+                return SymB(op(num, 0) if sg > 0 else op(-num, 0), atoms=diff.atoms())
         return SymB(op(diff.zreal(), 0), atoms=diff.atoms())
 
     def __lt__(s, o):
@@ -635,6 +819,27 @@ class SymC:
     def __hash__(s):
         return id(s)
 
+    # numpy-scalar look-alike: reductions of object arrays hand back the bare element where numpy would give np.float64
+    ndim = 0
+    shape = ()
+    size = 1
+
+    def __getitem__(s, idx):
+        if idx is None:
+            return sarr([s])
+        if idx == () or idx is Ellipsis:
+            return s
+        if isinstance(idx, tuple) and all(i is None or i is Ellipsis for i in idx):
+            a = sarr([s])
+            return a.reshape((1,) * sum(1 for i in idx if i is None))
+        raise IndexError("invalid index to scalar variable")
+
+    def item(s):
+        return s
+
+    def copy(s):
+        return s
+
     def __repr__(s):
         if s.isconst():
             return f"SymC({complex(s)})"
@@ -654,6 +859,32 @@ class SymC:
             return format(c.real if c.imag == 0 else c, spec)
         from . import tok
         return tok.format_sym(s, spec)
+
+
+def _known_sign(p):
+    """+1 / -1 if the real polynomial p has a sign fixed by the declared bounds of its atoms (all terms of one sign), else 0"""
+    sign = 0
+    for m, c in p.t.items():
+        if c[1] != 0 or c[0] == 0:
+            return 0
+        sg = 1 if c[0] > 0 else -1
+        for v, e in m:
+            b = BOUNDS.get(v)
+            if e % 2 == 0:
+                if not b or not ((b[0] is not None and b[0] > 0) or (b[1] is not None and b[1] < 0)):
+                    return 0
+                continue
+            if b and b[0] is not None and b[0] > 0:
+                pass
+            elif b and b[1] is not None and b[1] < 0:
+                sg = -sg
+            else:
+                return 0
+        if sign == 0:
+            sign = sg
+        elif sign != sg:
+            return 0
+    return sign
 
 
 def side_for(atoms):
@@ -683,6 +914,9 @@ def side_for(atoms):
     return list(uniq.values())
 
 
+NRA_FALLBACK_MS = 0     # >0: a harness with nonlinear branch conditions lets Ctx.feasible retry 'unknown' one-shot with SolverFor("QF_NRA")
+
+
 class Ctx:
     cur = None
 
@@ -704,7 +938,7 @@ class Ctx:
     @staticmethod
     def note_div(den):
         c = Ctx.cur
-        if c is not None and not den.isconst():
+        if c is not None and not den.isconst() and len(c.divs) < 10000:
             c.divs.append(den)
 
     def reset_path(s, prefix):
@@ -737,6 +971,16 @@ class Ctx:
         t0 = time.time()
         s.nq += 1
         r = s.solver.check(lit, *side)
+        if r == z3.unknown and NRA_FALLBACK_MS:
+            # the incremental core gives up on nonlinear path conditions that a fresh nlsat-based solver decides: retry one-shot
+            o = z3.SolverFor("QF_NRA")
+            o.set("timeout", int(NRA_FALLBACK_MS))
+            o.add(*s.pc)
+            o.add(lit, *side)
+            try:
+                r = o.check()
+            except z3.Z3Exception:
+                r = z3.unknown
         s.t_solver += time.time() - t0
         if r == z3.unknown:
             s.nq_unknown += 1
@@ -751,7 +995,8 @@ class Ctx:
             if s.pos >= s.max_forks:
                 raise Inconclusive("fork budget exhausted")
             ft = s.feasible(b.t, side)
-            ff = s.feasible(z3.Not(b.t), side)
+            # the path condition itself is satisfiable (invariant), so if b cannot hold its negation can
+            ff = True if ft is False else s.feasible(z3.Not(b.t), side)
             if ft is None or ff is None:
                 # unknown: explore both sides (over-approximation; obligations are still checked under pc)
                 ft = True if ft is None else ft
